@@ -563,23 +563,24 @@ pub fn run(args: &Args) -> i32 {
     rep.finish()
 }
 
-pub fn replay(path: &str) -> i32 {
+/// Load a real-execution replay artefact: the task and the recorded choices.
+pub fn load_task(path: &str) -> (Task, Vec<u16>) {
     let s = std::fs::read_to_string(path).expect("MACHINERY: cannot read replay file");
     let v: Value = serde_json::from_str(&s).expect("MACHINERY: replay file is not JSON");
     let r = if v.get("replay").is_some() { &v["replay"] } else { &v };
     let cell = all_cells()[r["cell_index"].as_u64().expect("cell_index") as usize];
     let topo_name = r["topo"].as_str().expect("topo").to_string();
-    let topo: &'static str = TOPOLOGIES
+    let topo: &'static str = drive::TOPO_NAMES
         .iter()
-        .chain(["L4", "refuse", "silent-all", "far-target-late"].iter())
         .find(|t| **t == topo_name)
         .copied()
         .expect("MACHINERY: unknown topo in replay");
     let params = params_from_json(&r["params"]);
     let choices: Vec<u16> = r["choices"].as_array().expect("choices").iter().map(|c| c.as_u64().unwrap() as u16).collect();
-    let t = Task { cell, topo, params, bound: 0 };
-    let o = run_once(&t, Chooser::new(&choices, 100_000));
-    println!("replay C01: cell={} topo={} choices={:?}", cell.name(), topo, choices);
+    (Task { cell, topo, params, bound: 0 }, choices)
+}
+
+pub fn print_trace(o: &RunOutcome) {
     println!("result: {:?}", o.result);
     for s in &o.world.sent {
         println!("  sent #{} t={}ns round={} ttl={} seq={:?}", s.idx, s.time_ns, s.round, s.ttl, s.seq);
@@ -593,6 +594,13 @@ pub fn replay(path: &str) -> i32 {
             println!("    {s:?}");
         }
     }
+}
+
+pub fn replay(path: &str) -> i32 {
+    let (t, choices) = load_task(path);
+    let o = run_once(&t, Chooser::new(&choices, 100_000));
+    println!("replay C01: cell={} topo={} choices={:?}", t.cell.name(), t.topo, choices);
+    print_trace(&o);
     let bad = judge(&t, &o);
     for (k, d) in &bad {
         println!("DISCREPANCY {k}: {d}");
